@@ -346,6 +346,8 @@ def auto_discharge(mir, site_fn, b, bb, t):
             if k == "call":
                 if re.search(r"::len$", o[1] or ""):
                     return True
+                if re.search(r"^core::num::<impl [ui](8|16|32|64|128|size)>::\w+$", o[1] or ""):
+                    return all(in_memory(a, depth + 1) for a in o[3])          # integer-only std helper (next_multiple_of, min, ...)
                 cb = mir.bodies.get(o[2] or o[1] or "")
                 if cb is not None and not cb.get("coroutine") and all(absint.ty_range(cb["locals"][i].get("ty", "")) is not None for i in range(1, cb["argc"] + 1)):
                     return all(in_memory(a, depth + 1) for a in o[3])
